@@ -88,6 +88,7 @@ struct Env {
     out: Vec<String>,
     terminated: bool,
     progress: bool,
+    harness_files: HashMap<String, Vec<u8>>,
 }
 
 impl Env {
@@ -150,7 +151,9 @@ impl Env {
                     Reply::Load(i, l, present) => {
                         let h = piece_hash(i, l, true);
                         if present {
-                            std::fs::write(hash_to_string(&h) + ".piece", content(i, l)).unwrap();
+                            let name = hash_to_string(&h) + ".piece";
+                            std::fs::write(&name, content(i, l)).unwrap();
+                            self.harness_files.insert(name, content(i, l));
                         }
                         resp_ch.send(RequestCmd::LoadAndSendPiece { piece_index: i, piece_hash: h })
                     }
@@ -238,7 +241,7 @@ impl Env {
         names.sort();
         for n in names {
             let data = std::fs::read(&n).unwrap_or_default();
-            if before.get(&n) != Some(&data) {
+            if before.get(&n) != Some(&data) && self.harness_files.get(&n) != Some(&data) {
                 self.out.push(format!(
                     "s={}:{}:{}",
                     n.trim_end_matches(".piece").to_lowercase(),
@@ -279,8 +282,8 @@ pub fn op_hand(mode: &str, np: usize, script: &str) -> String {
             let (broad_tx, broad_rx) = broadcast::channel::<BroadCmd>(1024);
             let (ours, theirs) = tokio::io::duplex(1 << 22);
             let mut handler = PeerHandler::new(ADDR.to_string(), own_id, peer_id, info_hash, np, cmd_tx, broad_rx);
-            let task = tokio::spawn(async move { handler.verif_run_mem(theirs).await });
-            let mut env = Env { cmds: cmd_rx, peer: ours, rbuf: vec![], out: vec![], terminated: false, progress: false };
+            let mut task = tokio::spawn(async move { handler.verif_run_mem(theirs).await });
+            let mut env = Env { cmds: cmd_rx, peer: ours, rbuf: vec![], out: vec![], terminated: false, progress: false, harness_files: HashMap::new() };
             let mut files: HashMap<String, Vec<u8>> = HashMap::new();
             let mut results: Vec<String> = vec![];
             // let the task start (and arm its timers) at virtual time 0
@@ -352,19 +355,25 @@ pub fn op_hand(mode: &str, np: usize, script: &str) -> String {
                     }
                     rounds += 1;
                 }
+                if !env.terminated && task.is_finished() {
+                    // the task ended without reporting to the manager: it panicked
+                    env.out.push("PANIC".into());
+                    env.terminated = true;
+                }
                 env.note_new_files(&mut files);
                 // every save must be observed anew, also when the same piece is stored twice
-                for n in files.keys() {
+                for n in files.keys().chain(env.harness_files.keys()) {
                     let _ = std::fs::remove_file(n);
                 }
                 files.clear();
+                env.harness_files.clear();
                 results.push(if env.out.is_empty() { "-".to_string() } else { env.out.join("/") });
                 env.out.clear();
             }
-            if !env.terminated {
+            if !task.is_finished() {
                 task.abort();
             }
-            let _ = task.await;
+            let _ = (&mut task).await;
             results.join(";")
         })
     });
